@@ -147,6 +147,23 @@ ROUND7 = {
 }
 
 
+# sentences added per round-9 addition (DESIGN.md section 4i)
+ROUND9 = {
+ "C01": "Two packed values read by one decoder (odd-length X and X plus its padding character).",
+ "C02": "Packed strings of exactly 255 characters in the quick tier.",
+ "C05": "Reads pushed into the layer from inside a delivery.",
+ "C06": "A group participants request followed by the server's documented answer.",
+ "C07": "Contacts notifications the contacts layer cannot present are still acknowledged once.",
+ "C08": "Reply types as run-time strings.",
+ "C09": "Number-like free text (packed alphabets) in a presence name / group subject through the real codec.",
+ "C10": "Content edited through setters after construction, every settable field of every attribute class.",
+ "C12": "A damaged compressed frame as a fault; compressed frames among the follow-ups.",
+ "C13": "A prekey stored under an id that is still in the store.",
+ "C16": "The connection ends while the real keep-alive thread body is in its period (one pre-emption), then a new login.",
+ "C17": "The store busy during the trust decision.",
+ "C18": "An earlier stack of the same layer classes in the process.",
+ "C20": "Phone strings as typed or pasted (blanks and line ends at the edges, plus sign, other scripts' digits).",
+}
 # sentences added per round-8 addition (DESIGN.md section 4h)
 ROUND8 = {
  "C02": "List sizes across the 8/16-bit header boundary for the reference decoder; several frames, some deflated, through one decoder object.",
@@ -179,7 +196,7 @@ def main():
             "evidence_file": "evidence/%s.json" % pid,
             "replay_cmd_template": "bin/check %s --replay {path}" % pid,
             "engine": "sx",
-            "level_claimed": {"category": c["cat"], "text": (c["text"] + " " + ROUND5.get(pid, "") + " " + ROUND6.get(pid, "") + " " + ROUND7.get(pid, "") + " " + ROUND8.get(pid, "")).strip(), "design_ref": "DESIGN.md section " + c["design"]},
+            "level_claimed": {"category": c["cat"], "text": (c["text"] + " " + ROUND5.get(pid, "") + " " + ROUND6.get(pid, "") + " " + ROUND7.get(pid, "") + " " + ROUND8.get(pid, "") + " " + ROUND9.get(pid, "")).strip(), "design_ref": "DESIGN.md section " + c["design"]},
             "level_note": c["note"],
             "technique": c["technique"],
         })
